@@ -67,6 +67,9 @@ func VH_C02_FetchV2Batches(version, nb, segments int) {
 	}
 	vhAssert(no >= o, "position-never-moves-backwards")
 	vhAssert(no <= next, "position-does-not-skip-stored-records-beyond-the-fragment")
+	// progress: the response was complete, so the next fetch starts right after its last batch - staying on an
+	// offset that compaction removed would fetch the same batches again for ever
+	vhAssert(no == next, "position-moves-past-the-last-complete-batch")
 	vhReach("c02-fetch-v2")
 }
 
